@@ -1,6 +1,7 @@
 import Gv.Oracle.Pool
+import Gv.Oracle.CliPhase
 import Gv.Oracle.Loop
 /-! oracle of property C16: only the handlers it needs -/
 open Gv Gv.Oracle
 
-def main : IO Unit := runOracle [PoolOps.handle]
+def main : IO Unit := runOracle [CliPhaseOps.handle, PoolOps.handle]
